@@ -194,6 +194,25 @@ def _regex_src(p, mod):
     return None
 
 
+def _frames_ok(pat: str, accepted, refused) -> bool:
+    """The pattern (searched, as the readers do) finds each accepted sample with the given groups and none of the refused."""
+    import re as _re
+
+    try:
+        cre = _re.compile(pat.encode("latin-1"))
+    except Exception:  # noqa: BLE001
+        return False
+    for sample, *groups in accepted:
+        m = cre.search(sample.encode("latin-1"))
+        if m is None:
+            return False
+        for i, gexp in enumerate(groups, 1):
+            got = m.group(i) if i <= (cre.groups or 0) else None
+            if (got.decode("latin-1") if got is not None else None) != gexp:
+                return False
+    return not any(cre.search(x.encode("latin-1")) for x in refused)
+
+
 def r19_3(ctx):
     p = ctx.p
     pairs = [
@@ -217,7 +236,9 @@ def r19_3(ctx):
         pat = _regex_src(p, rmod)
         ctx.require(pat, f"{rmod}.RE_LITERAL_STRING_START not a constant pattern", anchor=True)
         # the template "{<digits>}" before "\n" must be in the reader's language: group 1 digits-only, braces literal
-        accepts = rl.group_digits_only(pat, 1) and pat.startswith("\\{") and ("\\}" in pat)
+        # (decided on the language, not on the spelling of the pattern: the frames the writer produces are matched, with
+        # the count - digits only - in group 1)
+        accepts = rl.group_digits_only(pat, 1) and _frames_ok(pat, [("{5}\n", "5"), ("{123456}\n", "123456"), ("{0}\n", "0")], [])
         rt = norm(r.node, 30000)
         from .common import pm_of
         prr = pm_of(p, r)
@@ -332,8 +353,12 @@ def r19_5(ctx):
         ctx.ok("R19.5", where(fi), "a synchronising literal is read only after '+' was sent")
     # group 2 of the pattern is the '+'
     pat = _regex_src(p, "server")
-    if pat and pat.endswith("(\\+)?\\}$"):
-        ctx.ok("R19.5", "server:<module>", f"/{pat}/: group 2 is the optional '+', anchored at the end of the line", nontrivial=False)
+    if pat and _frames_ok(
+        pat,
+        [("A1 APPEND x {12+}", "12", "+"), ("A1 APPEND x {12}", "12", None), ("{5}", "5", None), ("a {3} b {00004+}", "00004", "+")],
+        ["x {12} y", "{12+}x", "{+}", "{12++}", "{ 12}", "12}", "{12"],
+    ):
+        ctx.ok("R19.5", "server:<module>", f"/{pat}/: group 1 the count, group 2 the optional '+', anchored at the end of the line", nontrivial=False)
     else:
         ctx.bad("R19.5", "server", "<module>", f"/{pat}/", "literal pattern is no longer '{digits}[+]' anchored at the end of the line", 0)
 
